@@ -38,6 +38,51 @@ pub fn plan(prop: &str) -> Option<Plan> {
             parts: vec![p("worldsim", "churn", 30_000, 1_000_000), p("worldsim", "lifecycle", 20_000, 500_000)],
             assumptions: base,
         },
+        "C03" => Plan {
+            level: "exploration",
+            parts: vec![p("worldsim", "stale", 60_000, 2_000_000), p("worldsim", "restricted", 20_000, 500_000)],
+            assumptions: base,
+        },
+        "C04" => Plan {
+            level: "exploration",
+            parts: vec![p("worldsim", "storage", 60_000, 2_500_000)],
+            assumptions: base,
+        },
+        "C05" => Plan {
+            level: "exploration",
+            parts: vec![p("worldsim", "purge", 50_000, 1_500_000)],
+            assumptions: base,
+        },
+        "C08" => Plan {
+            level: "exploration",
+            parts: vec![p("worldsim", "values", 50_000, 1_500_000)],
+            assumptions: base,
+        },
+        "C09" => Plan {
+            level: "exploration",
+            parts: vec![p("worldsim", "lazy", 60_000, 2_000_000)],
+            assumptions: base,
+        },
+        "C12" => Plan {
+            level: "exploration",
+            parts: vec![p("worldsim", "tracked", 60_000, 2_000_000)],
+            assumptions: base,
+        },
+        "C13" => Plan {
+            level: "exploration",
+            parts: vec![p("worldsim", "restricted", 60_000, 2_000_000)],
+            assumptions: base,
+        },
+        "C10" => Plan {
+            level: "exploration",
+            parts: vec![p("worldsim", "parallel", 30_000, 1_000_000)],
+            assumptions: vec![A_SAMPLING, A_MODEL, A_SC],
+        },
+        "C19" => Plan {
+            level: "fault_enumeration",
+            parts: vec![p("worldsim", "faults", 12_000, 300_000)],
+            assumptions: vec![A_SAMPLING, A_MODEL, "one destructor fault is armed at a time and disarms when it fires (a second panic while unwinding aborts the process and says nothing about the property); faults are addressed by value identity, never by destructor call order (hash-map drop order is per-process)"],
+        },
         _ => return None,
     })
 }
